@@ -408,6 +408,53 @@ def rule_validator_model(chk):
                 chk.decide(u_ok and g_ok, 'validator-covers-emitted-names', 'model:names-from-the-emitters-sources', node=fn, file=AE, func=fn.name,
                            detail_bad='the validator does not take the required names from get_arrays_used_in_equation(equation) and Group([equation]).get_array_names() (calls: %s)'
                                       % [k for k, a in calls], detail_ok='explicit names and precomputed-symbol names of this equation')
+        # the constructor of AccelerationEval validates every equation - of plain groups and of sub-groups - against the arrays *it* names, each array counted with its own names only
+        init = M.find_method(M.py(AE), 'AccelerationEval', '__init__')
+
+        def construct(eq_list_builder, fluid_props, solid_props):
+            calls = []
+
+            def used(interp, f, args, kwargs, node, env):
+                return (set(['s_m']), set(['d_au']))
+
+            def group(interp, f, args, kwargs, node, env):
+                return EM.mock(get_array_names=lambda i, a, k, n, e: (set(), set()), precomputed={}, equations=list(args[0]) if args and isinstance(args[0], list) else [])
+
+            def grouped(interp, f, args, kwargs, node, env):
+                return args[0]
+            it = AI.Interp(EI.index(), AI.Config([]), intrinsics={(EQ, None, 'get_arrays_used_in_equation'): used, (EQ, 'Group'): group, (AE, None, 'group_equations'): grouped,
+                                                                   (AE, 'AccelerationEval', '_get_backend'): lambda i, f, a, k, n, e: 'cython'})
+            pas = [EM.mock(name='fluid', properties=dict((k, None) for k in fluid_props), constants={}), EM.mock(name='solid', properties=dict((k, None) for k in solid_props), constants={})]
+            obj = EM.instance(it, AE, 'AccelerationEval')
+            try:
+                EM.call(it, obj, '__init__', pas, eq_list_builder(), EM.mock(name='kernel'))
+                return 'ok', ''
+            except AI.Raised as e:
+                return 'raised', ' '.join(str(x) for x in (getattr(e, 'args_values', None) or []))
+            except AI.Unsupported as e:
+                r_ = getattr(e, 'raised', None)
+                if r_ is not None:
+                    return 'raised', ' '.join(str(x) for x in (getattr(r_, 'args_values', None) or []))
+                raise
+
+        def plain():
+            e1 = EM.mock(name='EqF', dest='fluid', sources=['fluid', 'solid'], no_source=False)
+            e2 = EM.mock(name='EqS', dest='solid', sources=['fluid'], no_source=False)
+            return [EM.mock(has_subgroups=False, equations=[e1, e2])]
+
+        def nested():
+            e1 = EM.mock(name='EqF', dest='fluid', sources=['fluid', 'solid'], no_source=False)
+            e2 = EM.mock(name='EqS', dest='solid', sources=['fluid'], no_source=False)
+            return [EM.mock(has_subgroups=True, equations=[EM.mock(has_subgroups=False, equations=[e1]), EM.mock(has_subgroups=False, equations=[e2])])]
+        ccases = [('plain-complete', plain, ['au', 'm', 'x'], ['au', 'm', 'y'], 'ok', ()),
+                  ('plain-second-array-lacks-what-the-first-has', plain, ['au', 'm', 'x'], ['m', 'y', 'z'], 'raised', ('EqS', 'solid', 'au')),
+                  ('sub-groups-are-validated', nested, ['au', 'm', 'x'], ['m', 'y', 'z'], 'raised', ('EqS', 'solid', 'au')),
+                  ('source-array-lacks-source-name', plain, ['au', 'm', 'x'], ['au', 'y', 'z'], 'raised', ('EqF', 'solid', 'm'))]
+        for label, builder, fp, sp, want, words in ccases:
+            got, msg = construct(builder, fp, sp)
+            chk.decide(got == want and all(w in msg for w in words), 'validation-dominates-compilation', 'model:AccelerationEval:' + label, node=init, file=AE, func='AccelerationEval.__init__',
+                       detail_bad='constructing the evaluator on the model problem %s: expected %s%s, got %s %r' % (label, want, (' naming %s' % (words,)) if words else '', got, msg[:160]),
+                       detail_ok='%s%s' % (want, (' naming %s' % (words,)) if words else ''))
     except AI.Unsupported as e:
         chk.undecided('validator-covers-emitted-names', 'model', node=fn, file=AE, func=fn.name, detail='validator not interpretable on the model: %s' % e)
 
